@@ -127,7 +127,7 @@ func (fr *Frame) finishPanics() {
 		return
 	}
 	rv := u.w.newConst("recovered", "Iface")
-	u.fact(fmt.Sprintf("(distinct (typ %s) T_nil)", rv))
+	u.fact(fmt.Sprintf("(distinct (ityp %s) T_nil)", rv))
 	fr.execDefers(sp, term(rv, types.NewInterfaceType(nil, nil)))
 	if sp.dead {
 		return
